@@ -1,1 +1,1469 @@
-//! C11 - not built yet
+//! C11 - conditional compilation selects exactly the branches C semantics select.
+//!
+//! Reference-model monitor. Every generated input (a set of in-memory files + initial defines) is run
+//! through the real `rssl::preprocess::preprocess` and through the reference preprocessor
+//! `oracle::c11_refpp` (written from the C standard and the property text). The token sequence that
+//! survives must be exactly the reference sequence; broken conditional structure must be refused with a
+//! diagnostic; inputs C gives no meaning to are skipped and counted.
+//!
+//! Every text line carries a unique id token (`T<n>`) and uses of the macros that #define/#undef lines
+//! inside branches (re)define, so the surviving tokens identify each selected branch and show whether a
+//! #define/#undef/#include/#pragma once inside an unselected branch had an effect.
+
+use crate::json::Json;
+use crate::oracle::c11_refpp as refpp;
+use crate::oracle::c11_refpp::{Expected, RefPP, St};
+use crate::par::{self, Caught};
+use crate::report::{Ctx, Report};
+use crate::rng::{hash_bytes, Rng};
+use crate::rs::{Files, FilesHandler};
+use crate::CheckDef;
+
+pub fn def() -> CheckDef {
+    CheckDef {
+        id: "C11",
+        salt: 0xC11,
+        rule: "inputs: (1) EXHAUSTIVE: every sequence of length 0..=5 (quick) / 0..=6 (thorough) over the 12 line symbols {#if 0, #if 1, #ifdef DEFINED, \
+               #ifdef UNDEFINED, #ifndef DEFINED, #ifndef UNDEFINED, #elif 0, #elif 1, #else, #endif, text line, #define line}; the text line at position i \
+               is `T<i> M<j>.. ;` naming every earlier #define position j, the #define at position i is `#define M<i> <100+i>`; (2) random sequences of \
+               length 7-9 over the same alphabet (the full length-9 space, 5e9, is not enumerable per run); (3) random structured programs nested to depth \
+               1..=8 with #if/#ifdef/#ifndef/#elif/#else, object- and function-like macros, #undef, #include of generated files (with #pragma once in live \
+               and dead positions), unknown directives and missing includes in dead groups, random white space/comments on directive lines, optional \
+               missing final newline, and (15%) one structural fault injected (conditional directive deleted / stray #if #else #elif #endif inserted); \
+               (4) random condition expressions to depth 5 over the literals 0 1 2 2^31 2^32-1 2^32 2^63-1 2^63 2^64-1 and random values (decimal, hex, octal, \
+               u suffix), object macros with literal / parenthesised / unparenthesised expression bodies, function-like macros, defined X, defined(X), unknown \
+               identifiers and all of || && == != < <= > >= ! ( ), used as #if and as #elif condition, raw and as `(E) == <reference value>`; (5) a fixed \
+               list of directed probes. Generator avoidances (KF-C11-1 and KF-C11-2 are exercised only by directed probes): the condition of an #elif that C does \
+               not evaluate (chain already taken / inside a skipped group) is always kept evaluable under the macro table in force (also after fault injection); \
+               integer suffixes l/ul are not used; not generated at all: `defined` inside macro arguments, true/false (0 in C, 1 in C++), an upper case 0X \
+               prefix (lexer matter, C10), arithmetic/bitwise operators (not in the property's list). distinct_nontrivial = distinct inputs (hash of all \
+               files + defines) containing at least one conditional directive; evaluations = executions of rssl::preprocess::preprocess observed",
+        assumptions: &[
+            "the reference preprocessor (oracle/c11_refpp.rs) implements C11 6.10.1-6.10.3 for the generated sub-language; its expression parser is cross-checked at start-up against direct evaluation of the generated expression trees",
+            "the token stream returned by rssl::preprocess::preprocess (white space removed) is what reaches the parser",
+            "macro replacement subtleties (rescanning across the end of a replacement, #, ##) are property C12's business and are not generated here",
+        ],
+        min_distinct: (500_000, 6_000_000),
+        deadline_s: (55.0, 540.0),
+        run,
+        replay,
+    }
+}
+
+// ------------------------------------------------------------------------------------------------
+// Case
+// ------------------------------------------------------------------------------------------------
+
+#[derive(Clone, Debug)]
+pub struct Case {
+    pub kind: String,
+    pub files: Vec<(String, String)>,
+    pub entry: String,
+    pub defines: Vec<(String, String)>,
+}
+
+impl Case {
+    fn single(kind: &str, text: String, defines: &[(&str, &str)]) -> Case {
+        Case {
+            kind: kind.to_string(),
+            files: vec![("main.rssl".to_string(), text)],
+            entry: "main.rssl".to_string(),
+            defines: defines.iter().map(|(a, b)| (a.to_string(), b.to_string())).collect(),
+        }
+    }
+    fn to_json(&self) -> Json {
+        Json::obj()
+            .set("kind", &self.kind)
+            .set("entry", &self.entry)
+            .set("files", Files(self.files.clone()).to_json())
+            .set("defines", Json::Arr(self.defines.iter().map(|(a, b)| Json::Arr(vec![Json::str(a), Json::str(b)])).collect()))
+    }
+    fn from_json(j: &Json) -> Case {
+        let mut defines = Vec::new();
+        if let Some(d) = j.get("defines").and_then(|d| d.as_arr()) {
+            for kv in d {
+                if let Some(kv) = kv.as_arr() {
+                    if kv.len() == 2 {
+                        defines.push((kv[0].as_str().unwrap_or("").to_string(), kv[1].as_str().unwrap_or("").to_string()));
+                    }
+                }
+            }
+        }
+        Case {
+            kind: j.get_str("kind").unwrap_or("replay").to_string(),
+            files: Files::from_json(j.get("files").unwrap_or(&Json::Null)).0,
+            entry: j.get_str("entry").unwrap_or("main.rssl").to_string(),
+            defines,
+        }
+    }
+    fn hash(&self) -> u64 {
+        let mut bytes = Vec::new();
+        for (n, c) in &self.files {
+            bytes.extend_from_slice(n.as_bytes());
+            bytes.push(0);
+            bytes.extend_from_slice(c.as_bytes());
+            bytes.push(1);
+        }
+        for (n, v) in &self.defines {
+            bytes.extend_from_slice(n.as_bytes());
+            bytes.push(2);
+            bytes.extend_from_slice(v.as_bytes());
+            bytes.push(3);
+        }
+        hash_bytes(&bytes)
+    }
+}
+
+// ------------------------------------------------------------------------------------------------
+// Observation of the real preprocessor
+// ------------------------------------------------------------------------------------------------
+
+enum Observed {
+    Tokens(Vec<String>),
+    /// (variant name, rendered diagnostic)
+    Rejected(String, String),
+    Panic(Caught),
+}
+
+fn render_token(t: &rssl::text::tokens::Token, out: &mut Vec<String>) {
+    use rssl::text::tokens::Token;
+    match t {
+        Token::Id(id) => out.push(id.0.clone()),
+        Token::LiteralInt(v) => out.push(format!("{}", v)),
+        Token::LiteralIntUnsigned32(v) => out.push(format!("{}u", v)),
+        Token::LiteralIntUnsigned64(v) => out.push(format!("{}ul", v)),
+        Token::LiteralIntSigned64(v) => out.push(format!("{}l", v)),
+        Token::LiteralString(s) => out.push(format!("\"{}\"", s)),
+        Token::LeftParen => out.push("(".into()),
+        Token::RightParen => out.push(")".into()),
+        Token::LeftBrace => out.push("{".into()),
+        Token::RightBrace => out.push("}".into()),
+        Token::LeftAngleBracket(_) => out.push("<".into()),
+        Token::RightAngleBracket(_) => out.push(">".into()),
+        Token::Semicolon => out.push(";".into()),
+        Token::Comma => out.push(",".into()),
+        Token::Plus => out.push("+".into()),
+        Token::Equals => out.push("=".into()),
+        Token::EqualsEquals => out.push("==".into()),
+        Token::ExclamationPoint => out.push("!".into()),
+        Token::ExclamationPointEquals => out.push("!=".into()),
+        Token::AmpersandAmpersand => out.push("&&".into()),
+        Token::VerticalBarVerticalBar => out.push("||".into()),
+        Token::Hash => out.push("#".into()),
+        other => out.push(format!("<{:?}>", other)),
+    }
+}
+
+fn observe(case: &Case) -> Observed {
+    let files = Files(case.files.clone());
+    let defines: Vec<(&str, &str)> = case.defines.iter().map(|(a, b)| (a.as_str(), b.as_str())).collect();
+    let r = par::guard(|| {
+        use rssl::text::CompileErrorExt;
+        let mut sm = rssl::text::SourceManager::new();
+        let mut handler = FilesHandler::new(&files);
+        match rssl::preprocess::preprocess(&case.entry, &mut sm, &mut handler, &defines) {
+            Ok(tokens) => {
+                let mut out = Vec::new();
+                for t in &tokens {
+                    if !t.0.is_whitespace() {
+                        render_token(&t.0, &mut out);
+                    }
+                }
+                Ok(out)
+            }
+            Err(e) => {
+                let dbg = format!("{:?}", e);
+                let variant: String = dbg.chars().take_while(|c| c.is_ascii_alphanumeric()).collect();
+                // rendering the diagnostic is part of "rejected with a diagnostic, not a panic"
+                let text = format!("{}", e.display(&sm));
+                Err((variant, text))
+            }
+        }
+    });
+    match r {
+        Ok(Ok(t)) => Observed::Tokens(t),
+        Ok(Err((v, t))) => Observed::Rejected(v, t),
+        Err(c) => Observed::Panic(c),
+    }
+}
+
+// ------------------------------------------------------------------------------------------------
+// The monitor
+// ------------------------------------------------------------------------------------------------
+
+fn is_line_id(tok: &str) -> bool {
+    tok.len() > 1 && tok.starts_with('T') && tok[1..].bytes().all(|c| c.is_ascii_digit())
+}
+
+fn strs(v: &[String]) -> Json {
+    Json::Str(v.join(" "))
+}
+
+/// Short class of a literal suffix probe etc. for narrow signatures: which out-of-the-ordinary constructs the input holds
+fn construct_tags(case: &Case) -> String {
+    let mut tags = Vec::new();
+    let all: String = case.files.iter().map(|f| f.1.as_str()).collect::<Vec<_>>().join("\n");
+    let mut has_l = false;
+    for line in refpp::split_lines(&all) {
+        let t = line.trim_start();
+        if t.starts_with('#') {
+            if let Ok(toks) = refpp::lex(t.trim_start_matches('#')) {
+                let cond = matches!(toks.first(), Some(refpp::Tok::Id(n)) if n == "if" || n == "elif");
+                if cond && toks.iter().any(|t| matches!(t, refpp::Tok::Int(_, refpp::Suffix::L | refpp::Suffix::UL))) {
+                    has_l = true;
+                }
+            }
+        }
+    }
+    if has_l {
+        tags.push("literal-suffix-l");
+    }
+    tags.join("+")
+}
+
+fn examine(case: &Case, report: &mut Report) {
+    let reference = refpp::run(&case.files, &case.entry, &case.defines);
+    let observed = observe(case);
+    report.evaluations += 1;
+
+    let family = case.kind.split(':').next().unwrap_or("?").to_string();
+    report.count(&format!("cases:{}", family));
+    report.count(&format!("expected:{}", reference.expected.class()));
+    report.count(&format!("expected:{}:{}", family, reference.expected.class()));
+
+    // what the reference model went through on this input
+    let mut conditional_directives = 0;
+    for (k, n) in &reference.events {
+        report.count_n(&format!("model:{}", k), *n);
+        if k.starts_with("if") || k.starts_with("elif") || k.starts_with("else") || k.starts_with("unmatched") || k.starts_with("unterminated") {
+            conditional_directives += n;
+        }
+    }
+    for op in &reference.cond.ops {
+        report.count(&format!("cond_op:{}", op));
+    }
+    if reference.cond.defined_plain > 0 {
+        report.count_n("cond:defined X", reference.cond.defined_plain);
+    }
+    if reference.cond.defined_paren > 0 {
+        report.count_n("cond:defined(X)", reference.cond.defined_paren);
+    }
+    if reference.cond.unknown_ids > 0 {
+        report.count_n("cond:identifier_as_0", reference.cond.unknown_ids);
+    }
+    if reference.cond.big_operands > 0 {
+        report.count_n("cond:operand>=2^32", reference.cond.big_operands);
+    }
+    report.max("max:condition_paren_depth", reference.cond.max_depth);
+    report.max("max:nesting", reference.max_nesting as u64);
+    report.count(&format!("nesting:{}", reference.max_nesting));
+    if conditional_directives > 0 || reference.max_nesting > 0 {
+        report.distinct(case.hash());
+    } else {
+        report.count("trivial:no_conditional_directive");
+    }
+
+    let witness = |observed_json: Json| -> Json {
+        let mut w = case.to_json();
+        w.put(
+            "expected",
+            match &reference.expected {
+                Expected::Tokens(t) => Json::obj().set("tokens", strs(t)),
+                Expected::Reject(r) => Json::obj().set("reject", r),
+                Expected::NoRef(r) => Json::obj().set("no_reference", r),
+            },
+        );
+        w.put("observed", observed_json);
+        w
+    };
+    let first_lines = |case: &Case| -> String {
+        let text = case.files.iter().find(|f| f.0 == case.entry).map(|f| f.1.as_str()).unwrap_or("");
+        let mut s: String = text.replace('\n', "\\n");
+        if s.len() > 160 {
+            s.truncate(160);
+            s.push_str("...");
+        }
+        s
+    };
+
+    match (&reference.expected, &observed) {
+        (Expected::NoRef(why), obs) => {
+            let class: String = why.split(':').next().unwrap_or(why).chars().take(48).collect();
+            report.count(&format!("skipped:no_reference:{}", class));
+            match obs {
+                Observed::Tokens(_) => report.count("skipped:no_reference->rssl_accepted"),
+                Observed::Rejected(v, _) => report.count(&format!("skipped:no_reference->rssl_rejected:{}", v)),
+                // C08's business
+                Observed::Panic(_) => report.count("skipped:panic"),
+            }
+        }
+        (_, Observed::Panic(c)) => {
+            report.count("observed:panic");
+            let sig = format!("panic:{}", c.signature());
+            report.violation(
+                &sig,
+                &format!("preprocess panicked at {} ({}) on {}", c.location, c.message.lines().next().unwrap_or(""), first_lines(case)),
+                witness(Json::obj().set("panic", &c.message).set("location", &c.location)),
+            );
+        }
+        (Expected::Reject(why), Observed::Rejected(variant, _)) => {
+            report.count(&format!("rejected_as_required:{}", variant));
+            let _ = why;
+        }
+        (Expected::Reject(why), Observed::Tokens(t)) => {
+            report.count("observed:accepted_broken_structure");
+            let class = if why.contains("unterminated") {
+                "unterminated"
+            } else if why.contains("#elif") {
+                "unmatched-elif"
+            } else if why.contains("#else") {
+                "unmatched-else"
+            } else {
+                "unmatched-endif"
+            };
+            report.violation(
+                &format!("accepted-broken-structure:{}", class),
+                &format!("input with {} was accepted: {}", why, first_lines(case)),
+                witness(Json::obj().set("tokens", strs(t))),
+            );
+        }
+        (Expected::Tokens(want), Observed::Tokens(got)) => {
+            if want == got {
+                report.count("agree:tokens");
+                report.count_n("tokens_compared", want.len() as u64);
+                if want.is_empty() {
+                    report.count("agree:empty_output");
+                }
+                if report.want_sample() && reference.max_nesting >= 2 && case.kind.starts_with("nested") {
+                    report.sample(witness(Json::obj().set("tokens", strs(got))));
+                }
+            } else {
+                let ids_want: Vec<&String> = want.iter().filter(|t| is_line_id(t)).collect();
+                let ids_got: Vec<&String> = got.iter().filter(|t| is_line_id(t)).collect();
+                let sig = if ids_want != ids_got {
+                    "branch-selection"
+                } else {
+                    "macro-state"
+                };
+                report.count(&format!("observed:{}", sig));
+                report.violation(
+                    sig,
+                    &format!("surviving tokens differ: expected [{}] got [{}] for {}", want.join(" "), got.join(" "), first_lines(case)),
+                    witness(Json::obj().set("tokens", strs(got))),
+                );
+            }
+        }
+        (Expected::Tokens(_), Observed::Rejected(variant, text)) => {
+            report.count(&format!("observed:rejected_wellformed:{}", variant));
+            let tags = construct_tags(case);
+            // narrow class for KF-C11-1: the input holds an #elif C does not evaluate whose condition has no value, and the
+            // diagnostic is a condition/macro-invocation error reported on an #elif line (or without a line)
+            let condition_error = matches!(
+                variant.as_str(),
+                "FailedToParseIfCondition" | "MacroRequiresArguments" | "MacroArgumentsNeverEnd" | "MacroExpectsDifferentNumberOfArguments"
+            );
+            let on_elif_line = match text.lines().nth(1) {
+                Some(src) => src.trim_start().trim_start_matches('#').trim_start().starts_with("elif"),
+                None => variant != "FailedToParseIfCondition",
+            };
+            let sig = if reference.unevaluated_elif_malformed.is_some() && condition_error && on_elif_line {
+                // C does not evaluate this #elif (6.10.1: in a skipped group directives are processed only to keep
+                // track of nesting; after a taken group the rest of the chain is skipped)
+                format!("elif-evaluated-in-skipped-group:{}", variant)
+            } else if !tags.is_empty() {
+                format!("rejected-wellformed:{}:{}", variant, tags)
+            } else {
+                format!("rejected-wellformed:{}", variant)
+            };
+            report.violation(
+                &sig,
+                &format!("well-formed input was rejected ({}): {}", text.lines().next().unwrap_or(variant), first_lines(case)),
+                witness(Json::obj().set("error", variant).set("diagnostic", text)),
+            );
+        }
+    }
+}
+
+// ------------------------------------------------------------------------------------------------
+// (1)+(2) sequences over the alphabet of the quantifier
+// ------------------------------------------------------------------------------------------------
+
+pub const SYMBOLS: [&str; 12] = [
+    "#if 0",
+    "#if 1",
+    "#ifdef DEFINED",
+    "#ifdef UNDEFINED",
+    "#ifndef DEFINED",
+    "#ifndef UNDEFINED",
+    "#elif 0",
+    "#elif 1",
+    "#else",
+    "#endif",
+    "text",
+    "define",
+];
+
+fn render_sequence(seq: &[u8]) -> String {
+    let mut text = String::new();
+    let mut defined_at: Vec<usize> = Vec::new();
+    for (i, s) in seq.iter().enumerate() {
+        match *s {
+            10 => {
+                text.push_str(&format!("T{}", i));
+                for j in &defined_at {
+                    text.push_str(&format!(" M{}", j));
+                }
+                text.push_str(" ;\n");
+            }
+            11 => {
+                text.push_str(&format!("#define M{} {}\n", i, 100 + i));
+                defined_at.push(i);
+            }
+            k => {
+                text.push_str(SYMBOLS[k as usize]);
+                text.push('\n');
+            }
+        }
+    }
+    text
+}
+
+fn sequence_case(kind: &str, seq: &[u8]) -> Case {
+    Case::single(kind, render_sequence(seq), &[("DEFINED", "1")])
+}
+
+/// Number of sequences of length 0..=max_len
+fn enumeration_size(max_len: u32) -> u64 {
+    (0..=max_len).map(|l| 12u64.pow(l)).sum()
+}
+
+/// index -> sequence (shorter sequences first)
+fn nth_sequence(mut index: u64, max_len: u32) -> Vec<u8> {
+    for len in 0..=max_len {
+        let n = 12u64.pow(len);
+        if index < n {
+            let mut seq = vec![0u8; len as usize];
+            for slot in seq.iter_mut().rev() {
+                *slot = (index % 12) as u8;
+                index /= 12;
+            }
+            return seq;
+        }
+        index -= n;
+    }
+    Vec::new()
+}
+
+// ------------------------------------------------------------------------------------------------
+// Expressions
+// ------------------------------------------------------------------------------------------------
+
+#[derive(Clone, Debug)]
+enum E {
+    Lit(u64, String),
+    /// object macro or unknown identifier
+    Name(String),
+    Defined(String, u8),
+    Call(String, Vec<E>),
+    Not(Box<E>),
+    Bin(&'static str, Box<E>, Box<E>),
+    Paren(Box<E>),
+}
+
+const BIN_OPS: [&str; 8] = ["||", "&&", "==", "!=", "<", "<=", ">", ">="];
+
+fn level(op: &str) -> u8 {
+    // C11 6.5.8 .. 6.5.14: relational binds tighter than equality, then &&, then ||
+    match op {
+        "||" => 1,
+        "&&" => 2,
+        "==" | "!=" => 3,
+        _ => 4,
+    }
+}
+
+fn interesting_value(rng: &mut Rng) -> u64 {
+    match rng.below(14) {
+        0 | 1 => 0,
+        2 | 3 => 1,
+        4 => 2,
+        5 => 1 << 31,
+        6 => (1 << 32) - 1,
+        7 => 1 << 32,
+        8 => (1 << 63) - 1,
+        9 => 1 << 63,
+        10 => u64::MAX,
+        11 => rng.next_u64(),
+        12 => rng.next_u64() >> 33,
+        _ => rng.below(6) as u64,
+    }
+}
+
+fn literal_text(rng: &mut Rng, v: u64) -> String {
+    let mut s = match rng.below(8) {
+        0 => format!("0x{:x}", v),
+        // (an upper case 0X prefix is lexed by rssl as `0` followed by an identifier: a lexer matter, property C10, not used here)
+        1 => format!("0x{:X}", v),
+        2 if v != 0 => format!("0{:o}", v),
+        _ => format!("{}", v),
+    };
+    if rng.chance(1, 8) {
+        s.push(if rng.chance(1, 2) { 'u' } else { 'U' });
+    }
+    s
+}
+
+/// What a generated expression may refer to
+#[derive(Clone, Debug, Default)]
+struct Names {
+    /// identifiers that are object-like macros with an expression body, or not macros at all (then 0)
+    values: Vec<String>,
+    /// names to ask `defined` about
+    flags: Vec<String>,
+    /// function-like macros that are invocable here: (name, arity)
+    functions: Vec<(String, usize)>,
+}
+
+fn gen_expr(rng: &mut Rng, depth: u32, names: &Names, in_macro_arg: bool) -> E {
+    let leaf = depth == 0 || rng.chance(1, 5);
+    if leaf {
+        let k = rng.below(10);
+        if k < 5 || (names.values.is_empty() && names.flags.is_empty()) {
+            let v = interesting_value(rng);
+            return E::Lit(v, literal_text(rng, v));
+        }
+        if k < 8 && !names.values.is_empty() {
+            return E::Name(rng.pick(&names.values).clone());
+        }
+        if !names.flags.is_empty() && !in_macro_arg {
+            return E::Defined(rng.pick(&names.flags).clone(), rng.below(3) as u8);
+        }
+        let v = interesting_value(rng);
+        return E::Lit(v, literal_text(rng, v));
+    }
+    match rng.below(12) {
+        0 | 1 => E::Not(Box::new(gen_expr(rng, depth - 1, names, in_macro_arg))),
+        2 => E::Paren(Box::new(gen_expr(rng, depth - 1, names, in_macro_arg))),
+        3 if !names.functions.is_empty() => {
+            let (name, arity) = rng.pick(&names.functions).clone();
+            let args = (0..arity).map(|_| gen_expr(rng, depth - 1, names, true)).collect();
+            E::Call(name, args)
+        }
+        _ => {
+            let op = *rng.pick(&BIN_OPS);
+            E::Bin(op, Box::new(gen_expr(rng, depth - 1, names, in_macro_arg)), Box::new(gen_expr(rng, depth - 1, names, in_macro_arg)))
+        }
+    }
+}
+
+fn expr_depth(e: &E) -> u32 {
+    match e {
+        E::Lit(..) | E::Name(_) | E::Defined(..) => 0,
+        E::Call(_, args) => 1 + args.iter().map(expr_depth).max().unwrap_or(0),
+        E::Not(a) | E::Paren(a) => 1 + expr_depth(a),
+        E::Bin(_, a, b) => 1 + expr_depth(a).max(expr_depth(b)),
+    }
+}
+
+fn expr_level(e: &E) -> u8 {
+    match e {
+        E::Bin(op, ..) => level(op),
+        E::Not(_) => 5,
+        _ => 6,
+    }
+}
+
+/// Render with the parentheses C's grammar requires (binary operators associate to the left) and random spacing
+fn render_expr(rng: &mut Rng, e: &E, min_level: u8, out: &mut String) {
+    let sp = |rng: &mut Rng, out: &mut String| {
+        if rng.chance(3, 4) {
+            out.push(' ');
+        }
+    };
+    let need = expr_level(e) < min_level;
+    if need {
+        out.push('(');
+    }
+    match e {
+        E::Lit(_, text) => out.push_str(text),
+        E::Name(n) => out.push_str(n),
+        E::Defined(n, form) => match form {
+            0 => {
+                out.push_str("defined ");
+                out.push_str(n);
+            }
+            1 => {
+                out.push_str("defined(");
+                out.push_str(n);
+                out.push(')');
+            }
+            _ => {
+                out.push_str("defined ( ");
+                out.push_str(n);
+                out.push_str(" )");
+            }
+        },
+        E::Call(n, args) => {
+            out.push_str(n);
+            if rng.chance(1, 6) {
+                out.push(' ');
+            }
+            out.push('(');
+            for (i, a) in args.iter().enumerate() {
+                if i > 0 {
+                    out.push(',');
+                    sp(rng, out);
+                }
+                render_expr(rng, a, 0, out);
+            }
+            out.push(')');
+        }
+        E::Not(a) => {
+            out.push('!');
+            if rng.chance(1, 6) {
+                out.push(' ');
+            }
+            render_expr(rng, a, 5, out);
+        }
+        E::Paren(a) => {
+            out.push('(');
+            render_expr(rng, a, 0, out);
+            out.push(')');
+        }
+        E::Bin(op, a, b) => {
+            let l = level(op);
+            render_expr(rng, a, l, out);
+            // an identifier or number must not run into the next one; operators may touch their operands
+            sp(rng, out);
+            out.push_str(op);
+            sp(rng, out);
+            render_expr(rng, b, l + 1, out);
+        }
+    }
+    if need {
+        out.push(')');
+    }
+}
+
+/// Direct evaluation of a macro free tree (self check of the reference parser): identifiers are 0
+fn eval_tree(e: &E, defined: &[String]) -> u64 {
+    match e {
+        E::Lit(v, _) => *v,
+        E::Name(_) => 0,
+        E::Defined(n, _) => defined.contains(n) as u64,
+        E::Call(..) => 0,
+        E::Not(a) => (eval_tree(a, defined) == 0) as u64,
+        E::Paren(a) => eval_tree(a, defined),
+        E::Bin(op, a, b) => {
+            let (x, y) = (eval_tree(a, defined), eval_tree(b, defined));
+            (match *op {
+                "||" => x != 0 || y != 0,
+                "&&" => x != 0 && y != 0,
+                "==" => x == y,
+                "!=" => x != y,
+                "<" => x < y,
+                "<=" => x <= y,
+                ">" => x > y,
+                _ => x >= y,
+            }) as u64
+        }
+    }
+}
+
+/// The text parser of the reference model against direct evaluation of the tree it was rendered from
+fn oracle_self_check(seed: u64) -> Result<u64, String> {
+    let names = Names {
+        values: vec!["QU1".into(), "QU2".into()],
+        flags: vec!["QP".into(), "QR".into()],
+        functions: vec![],
+    };
+    let mut macros = refpp::Macros::new();
+    macros.insert(
+        "QP".into(),
+        refpp::Macro {
+            params: None,
+            body: vec![],
+        },
+    );
+    let n = 4000;
+    for i in 0..n {
+        let mut rng = Rng::for_case(seed, 0x5E1F, i);
+        let depth = 1 + rng.below(5) as u32;
+        let e = gen_expr(&mut rng, depth, &names, false);
+        let mut text = String::new();
+        render_expr(&mut rng, &e, 0, &mut text);
+        let direct = eval_tree(&e, &["QP".to_string()]);
+        match refpp::eval_text(&text, &macros) {
+            Ok(v) if v == direct => {}
+            other => return Err(format!("oracle self check failed on `{}`: tree value {} but reference parser says {:?}", text, direct, other)),
+        }
+    }
+    // hand computed fixed points of the C rules (precedence, associativity, unsignedness)
+    let fixed: [(&str, u64); 14] = [
+        ("1 || 0 && 0", 1),
+        ("0 == 0 < 1", 0),
+        ("1 < 2 == 1", 1),
+        ("!0 == 1", 1),
+        ("!(0 == 1)", 1),
+        ("! 1 < 1", 1),
+        ("3 > 2 > 1", 0),
+        ("1 < 5 <= 1 > 0 <= 0", 0),
+        ("9223372036854775808 > 1", 1),
+        ("18446744073709551615 == 0xFFFFFFFFFFFFFFFF", 1),
+        ("0x8000000000000000 < 0x7fffffffffffffff", 0),
+        ("2 && 4", 1),
+        ("QU1 == 0 && !defined QR && defined(QP)", 1),
+        ("010 == 8", 1),
+    ];
+    for (text, want) in fixed {
+        match refpp::eval_text(text, &macros) {
+            Ok(v) if v == want => {}
+            other => return Err(format!("oracle self check failed on `{}`: want {} but reference parser says {:?}", text, want, other)),
+        }
+    }
+    Ok(n + fixed.len() as u64)
+}
+
+// ------------------------------------------------------------------------------------------------
+// Macro pools
+// ------------------------------------------------------------------------------------------------
+
+const VALUE_MACROS: [&str; 4] = ["QA", "QB", "QC", "QD"];
+const FLAG_MACROS: [&str; 3] = ["QP", "QR", "DEFINED"];
+const UNKNOWN_IDS: [&str; 3] = ["QU1", "QU2", "UNDEFINED"];
+const FUNCTION_MACROS: [(&str, usize); 2] = [("QF", 2), ("QG", 1)];
+
+/// Body for the object macro VALUE_MACROS[index]: always a well-formed expression on its own; refers only to
+/// value macros of a lower index (no cycles)
+fn value_macro_body(rng: &mut Rng, index: usize) -> String {
+    let names = Names {
+        values: VALUE_MACROS[..index].iter().map(|s| s.to_string()).chain(UNKNOWN_IDS.iter().take(1).map(|s| s.to_string())).collect(),
+        flags: vec![],
+        functions: vec![],
+    };
+    match rng.below(6) {
+        0 | 1 => {
+            let v = interesting_value(rng);
+            literal_text(rng, v)
+        }
+        2 | 3 => {
+            // parenthesised expression
+            let e = gen_expr(rng, 2, &names, false);
+            let mut s = String::from("(");
+            render_expr(rng, &e, 0, &mut s);
+            s.push(')');
+            s
+        }
+        _ => {
+            // unparenthesised: substitution is textual, so precedence of the use site applies
+            let d = 1 + rng.below(2) as u32;
+            let e = gen_expr(rng, d, &names, false);
+            let mut s = String::new();
+            render_expr(rng, &e, 0, &mut s);
+            s
+        }
+    }
+}
+
+fn function_macro_def(rng: &mut Rng, which: usize) -> String {
+    let (name, arity) = FUNCTION_MACROS[which];
+    let params: Vec<&str> = ["qx", "qy"][..arity].to_vec();
+    let names = Names {
+        values: params.iter().map(|s| s.to_string()).chain(std::iter::once("QA".to_string())).collect(),
+        flags: vec![],
+        functions: vec![],
+    };
+    let d = 1 + rng.below(2) as u32;
+    let e = gen_expr(rng, d, &names, false);
+    let mut body = String::new();
+    let paren = rng.chance(1, 2);
+    if paren {
+        body.push('(');
+    }
+    render_expr(rng, &e, 0, &mut body);
+    if paren {
+        body.push(')');
+    }
+    let sep = if rng.chance(1, 2) { ", " } else { "," };
+    format!("{}({}) {}", name, params.join(sep), body)
+}
+
+// ------------------------------------------------------------------------------------------------
+// (3) random structured programs
+// ------------------------------------------------------------------------------------------------
+
+struct Prog<'a> {
+    rng: Rng,
+    lines: Vec<String>,
+    pp: RefPP<'a>,
+    next_id: u32,
+    next_value: u64,
+    max_depth: usize,
+    line_budget: usize,
+    include_names: Vec<String>,
+}
+
+impl Prog<'_> {
+    fn push(&mut self, line: String) {
+        self.pp.feed_line(&line);
+        self.lines.push(line);
+    }
+
+    fn decorate(&mut self, directive: &str, rest: &str) -> String {
+        let rng = &mut self.rng;
+        let indent = *rng.pick(&["", "", "", " ", "\t", "    "]);
+        let gap = *rng.pick(&["", "", "", " ", "  ", "\t"]);
+        let trail = *rng.pick(&["", "", "", "", " ", " // note", " /* note */", "\t"]);
+        if rest.is_empty() {
+            format!("{}#{}{}{}", indent, gap, directive, trail)
+        } else {
+            format!("{}#{}{} {}{}", indent, gap, directive, rest, trail)
+        }
+    }
+
+    /// Names usable in a condition that is (or, for unevaluated ones, might wrongly be) evaluated here
+    fn names_here(&mut self) -> Names {
+        let mut values: Vec<String> = VALUE_MACROS.iter().map(|s| s.to_string()).collect();
+        values.extend(UNKNOWN_IDS.iter().map(|s| s.to_string()));
+        // a value macro that currently has an empty or non-expression body must not be used as a value
+        values.retain(|n| match self.pp.macros.get(n) {
+            None => true,
+            Some(m) => m.params.is_some() || !m.body.is_empty(),
+        });
+        let mut flags: Vec<String> = FLAG_MACROS.iter().map(|s| s.to_string()).collect();
+        flags.extend(VALUE_MACROS.iter().map(|s| s.to_string()));
+        flags.extend(FUNCTION_MACROS.iter().map(|s| s.0.to_string()));
+        flags.push("QU1".into());
+        let mut functions = Vec::new();
+        for (n, arity) in FUNCTION_MACROS {
+            if let Some(m) = self.pp.macros.get(n) {
+                if m.params.as_ref().map(|p| p.len()) == Some(arity) {
+                    functions.push((n.to_string(), arity));
+                }
+            }
+        }
+        // a function-like macro name without arguments is an ordinary identifier (0)
+        if self.rng.chance(1, 10) {
+            values.push("QG".into());
+        }
+        Names { values, flags, functions }
+    }
+
+    fn condition(&mut self, evaluated_by_c: bool, is_elif: bool) -> String {
+        let mut names = self.names_here();
+        if !evaluated_by_c && !is_elif && self.rng.chance(1, 3) {
+            // the condition of an #if inside a skipped group is never looked at: it may use a function-like macro
+            // that only exists in the skipped text
+            names.functions = FUNCTION_MACROS.iter().map(|(n, a)| (n.to_string(), *a)).collect();
+        }
+        let depth = self.rng.below(4) as u32;
+        let e = gen_expr(&mut self.rng, depth, &names, false);
+        let mut s = String::new();
+        render_expr(&mut self.rng, &e, 0, &mut s);
+        s
+    }
+
+    fn text_line(&mut self) {
+        let id = self.next_id;
+        self.next_id += 1;
+        let mut line = format!("T{}", id);
+        for m in VALUE_MACROS {
+            if self.rng.chance(2, 3) {
+                line.push(' ');
+                line.push_str(m);
+            }
+        }
+        if self.rng.chance(1, 3) {
+            line.push_str(" QP");
+        }
+        if self.rng.chance(1, 4) {
+            // only when invocable: otherwise it stays an identifier followed by a parenthesis, which is also fine
+            let v = self.rng.below(4);
+            line.push_str(&format!(" QG({})", v));
+        }
+        line.push_str(" ;");
+        if self.rng.chance(1, 10) {
+            line = format!("  {}  // text", line);
+        }
+        self.push(line);
+    }
+
+    fn define_line(&mut self) {
+        let live = self.pp.is_active();
+        let k = self.rng.below(10);
+        let (name, def): (String, String) = if k < 6 {
+            let i = self.rng.below(VALUE_MACROS.len());
+            let body = if self.rng.chance(1, 2) {
+                // unique literal: shows exactly which #define is in force
+                self.next_value += 1;
+                format!("{}", self.next_value)
+            } else {
+                value_macro_body(&mut self.rng, i)
+            };
+            (VALUE_MACROS[i].to_string(), format!("{} {}", VALUE_MACROS[i], body))
+        } else if k < 8 {
+            let i = self.rng.below(2);
+            (FUNCTION_MACROS[i].0.to_string(), function_macro_def(&mut self.rng, i))
+        } else {
+            let n = *self.rng.pick(&["QP", "QR"]);
+            if self.rng.chance(1, 2) {
+                (n.to_string(), n.to_string())
+            } else {
+                self.next_value += 1;
+                (n.to_string(), format!("{} {}", n, self.next_value))
+            }
+        };
+        // C forbids an incompatible redefinition of a live macro: #undef first. In a skipped group nothing is
+        // looked at, so there a bare redefinition is as good as any other text.
+        if self.pp.macros.contains_key(&name) && (live || self.rng.chance(1, 2)) {
+            let l = self.decorate("undef", &name);
+            self.push(l);
+        }
+        let l = self.decorate("define", &def);
+        self.push(l);
+    }
+
+    fn undef_line(&mut self) {
+        let pool = ["QA", "QB", "QC", "QD", "QP", "QR", "QF", "QG", "DEFINED", "QU1"];
+        let n = *self.rng.pick(&pool);
+        let l = self.decorate("undef", n);
+        self.push(l);
+    }
+
+    fn misc_line(&mut self) {
+        let live = self.pp.is_active();
+        match self.rng.below(7) {
+            0 | 1 | 6 if !self.include_names.is_empty() => {
+                let n = self.rng.pick(&self.include_names).clone();
+                self.push(format!("#include \"{}\"", n));
+            }
+            2 if !live => self.push("#include \"missing_file.h\"".to_string()),
+            3 if !live => {
+                let l = *self.rng.pick(&["#error this group is skipped", "#pragma once", "#frobnicate 1 2 3", "#pragma unknown_pragma", "#line 7"]);
+                self.push(l.to_string());
+            }
+            4 => self.push(String::new()),
+            _ => self.text_line(),
+        }
+    }
+
+    fn block(&mut self, depth: usize) {
+        let n = 1 + self.rng.below(4);
+        for _ in 0..n {
+            if self.lines.len() >= self.line_budget {
+                break;
+            }
+            let k = self.rng.below(100);
+            if k < 35 {
+                self.text_line();
+            } else if k < 55 {
+                self.define_line();
+            } else if k < 62 {
+                self.undef_line();
+            } else if k < 72 {
+                self.misc_line();
+            } else if depth < self.max_depth {
+                self.if_section(depth);
+            } else {
+                self.text_line();
+            }
+        }
+    }
+
+    fn if_section(&mut self, depth: usize) {
+        let live = self.pp.is_active();
+        let opener = match self.rng.below(10) {
+            0..=4 => {
+                let c = self.condition(live, false);
+                self.decorate("if", &c)
+            }
+            5..=7 => {
+                let n = self.flag_name();
+                self.decorate("ifdef", &n)
+            }
+            _ => {
+                let n = self.flag_name();
+                self.decorate("ifndef", &n)
+            }
+        };
+        self.push(opener);
+        self.block(depth + 1);
+        let elifs = match self.rng.below(10) {
+            0..=4 => 0,
+            5..=7 => 1,
+            8 => 2,
+            _ => 3,
+        };
+        for _ in 0..elifs {
+            // C evaluates an #elif only when no group of the chain was taken yet (which implies the chain is not in a skipped group)
+            let evaluated = matches!(self.pp.top_state(), Some((St::NotYetTaken, _)));
+            let c = self.condition(evaluated, true);
+            let l = self.decorate("elif", &c);
+            self.push(l);
+            self.block(depth + 1);
+        }
+        if self.rng.chance(3, 5) {
+            let l = self.decorate("else", "");
+            self.push(l);
+            self.block(depth + 1);
+        }
+        let l = self.decorate("endif", "");
+        self.push(l);
+    }
+
+    fn flag_name(&mut self) -> String {
+        let pool = ["QP", "QR", "DEFINED", "UNDEFINED", "QA", "QB", "QF", "QU1"];
+        self.rng.pick(&pool).to_string()
+    }
+}
+
+/// Include files: balanced, and well-formed whatever the macro state at the point of inclusion is
+fn include_file(rng: &mut Rng, index: usize, id_base: u32) -> String {
+    let mut s = String::new();
+    let mut id = id_base;
+    let pragma_once = rng.below(4);
+    if pragma_once == 0 {
+        s.push_str("#pragma once\n");
+    }
+    let mut text = |s: &mut String| {
+        s.push_str(&format!("T{} QA QB QP ;\n", id));
+        id += 1;
+    };
+    text(&mut s);
+    if pragma_once == 1 {
+        // must have no effect: the group is skipped
+        s.push_str("#if 0\n#pragma once\n#endif\n");
+    }
+    if pragma_once == 2 {
+        s.push_str("#ifdef UNDEFINED\n#pragma once\n#else\n");
+        text(&mut s);
+        s.push_str("#endif\n");
+    }
+    let flag = *rng.pick(&["QP", "QR", "DEFINED", "UNDEFINED", "QA"]);
+    let opener = match rng.below(3) {
+        0 => format!("#ifdef {}", flag),
+        1 => format!("#ifndef {}", flag),
+        _ => format!("#if defined({}) || QB > {}", flag, rng.below(3)),
+    };
+    s.push_str(&opener);
+    s.push('\n');
+    s.push_str(&format!("#undef QA\n#define QA {}\n", 7000 + index * 10 + rng.below(5)));
+    text(&mut s);
+    if rng.chance(1, 2) {
+        s.push_str("#else\n");
+        s.push_str(&format!("#undef QB\n#define QB {}\n", 8000 + index * 10 + rng.below(5)));
+        text(&mut s);
+    }
+    s.push_str("#endif\n");
+    text(&mut s);
+    s
+}
+
+fn nested_case(seed: u64, index: u64) -> Case {
+    let mut rng = Rng::for_case(seed, 0x0E57, index);
+    let n_includes = if rng.chance(1, 3) { 1 + rng.below(2) } else { 0 };
+    let mut files: Vec<(String, String)> = Vec::new();
+    for i in 0..n_includes {
+        let text = include_file(&mut rng, i, 900 + 20 * i as u32);
+        files.push((format!("inc{}.h", i), text));
+    }
+    let mut defines: Vec<(String, String)> = vec![("DEFINED".into(), "1".into())];
+    if rng.chance(1, 3) {
+        defines.push(("QD".into(), "(2 > 1)".into()));
+    }
+    let include_names: Vec<String> = files.iter().map(|f| f.0.clone()).collect();
+    let spine = rng.chance(1, 4);
+    let max_depth = if spine { 8 } else { 1 + rng.below(8) };
+    let final_newline = !rng.chance(1, 7);
+    let lines = {
+        let pp = RefPP::new(&files, "main.rssl", &defines);
+        let mut prog = Prog {
+            rng: rng.clone(),
+            lines: Vec::new(),
+            pp,
+            next_id: 0,
+            next_value: 1000,
+            max_depth,
+            line_budget: 70,
+            include_names,
+        };
+        // function-like macros usually exist from the start
+        for which in 0..2 {
+            if prog.rng.chance(4, 5) {
+                let d = function_macro_def(&mut prog.rng, which);
+                prog.push(format!("#define {}", d));
+            }
+        }
+        if spine {
+            // a spine of sections nested to the full depth, text before and after each level
+            let depth = 5 + prog.rng.below(4);
+            for _ in 0..depth {
+                prog.text_line();
+                let live = prog.pp.is_active();
+                let c = if prog.rng.chance(2, 3) { (prog.rng.below(3) != 0) as u8 } else { 2 };
+                let l = if c == 2 {
+                    let c = prog.condition(live, false);
+                    prog.decorate("if", &c)
+                } else {
+                    format!("#if {}", c)
+                };
+                prog.push(l);
+                if prog.rng.chance(1, 3) {
+                    prog.define_line();
+                }
+            }
+            prog.text_line();
+            for _ in 0..depth {
+                if prog.rng.chance(1, 2) {
+                    let evaluated = matches!(prog.pp.top_state(), Some((St::NotYetTaken, _)));
+                    let c = prog.condition(evaluated, true);
+                    let l = prog.decorate("elif", &c);
+                    prog.push(l);
+                    prog.text_line();
+                }
+                if prog.rng.chance(1, 2) {
+                    prog.push("#else".to_string());
+                    prog.text_line();
+                    if prog.rng.chance(1, 3) {
+                        prog.define_line();
+                    }
+                }
+                prog.push("#endif".to_string());
+                prog.text_line();
+            }
+        } else {
+            while prog.lines.len() < 6 || (prog.pp.max_nesting == 0 && prog.lines.len() < prog.line_budget) {
+                prog.block(0);
+            }
+        }
+        prog.text_line();
+        rng = prog.rng.clone();
+        prog.lines
+    };
+    let mut lines = lines;
+    let unfaulted = lines.clone();
+    let mut kind = if spine { "nested:spine".to_string() } else { "nested:tree".to_string() };
+    // structural faults: the reference decides from the final text what must happen
+    if rng.chance(3, 20) {
+        let directive_lines: Vec<usize> = lines
+            .iter()
+            .enumerate()
+            .filter(|(_, l)| {
+                let t = l.trim_start().trim_start_matches('#').trim_start();
+                l.trim_start().starts_with('#') && (t.starts_with("if") || t.starts_with("el") || t.starts_with("endif"))
+            })
+            .map(|(i, _)| i)
+            .collect();
+        match rng.below(5) {
+            0 | 1 if !directive_lines.is_empty() => {
+                let at = *rng.pick(&directive_lines);
+                lines.remove(at);
+                kind = "nested:fault_deleted_directive".into();
+            }
+            2 => {
+                let at = rng.below(lines.len() + 1);
+                lines.insert(at, "#endif".into());
+                kind = "nested:fault_stray_endif".into();
+            }
+            3 => {
+                let at = rng.below(lines.len() + 1);
+                lines.insert(at, (*rng.pick(&["#else", "#elif 1", "#elif 0"])).to_string());
+                kind = "nested:fault_stray_else_elif".into();
+            }
+            _ => {
+                let at = rng.below(lines.len() + 1);
+                lines.insert(at, (*rng.pick(&["#if 1", "#if 0", "#ifdef DEFINED", "#ifndef DEFINED"])).to_string());
+                kind = "nested:fault_stray_if".into();
+            }
+        }
+    }
+    let join = |lines: &[String]| {
+        let mut text = lines.join("\n");
+        if final_newline {
+            text.push('\n');
+        }
+        text
+    };
+    files.insert(0, ("main.rssl".to_string(), join(&lines)));
+    if kind.starts_with("nested:fault") {
+        // generator avoidance for known finding KF-C11-1: an injected fault can leave an #elif that C does not evaluate
+        // with a condition that has no value under the macro table now in force; such inputs are left to the directed probes
+        if refpp::run(&files, "main.rssl", &defines).unevaluated_elif_malformed.is_some() {
+            files[0].1 = join(&unfaulted);
+            kind = if spine { "nested:spine".to_string() } else { "nested:tree".to_string() };
+        }
+    }
+    Case {
+        kind,
+        files,
+        entry: "main.rssl".into(),
+        defines,
+    }
+}
+
+// ------------------------------------------------------------------------------------------------
+// (4) random conditions
+// ------------------------------------------------------------------------------------------------
+
+fn condition_case(seed: u64, index: u64) -> Case {
+    let mut rng = Rng::for_case(seed, 0xC04D, index);
+    let mut text = String::new();
+    let mut defines: Vec<(String, String)> = Vec::new();
+    if rng.chance(1, 2) {
+        defines.push(("DEFINED".into(), "1".into()));
+    }
+    let mut names = Names::default();
+    names.values.extend(UNKNOWN_IDS.iter().map(|s| s.to_string()));
+    names.flags.extend(["DEFINED", "UNDEFINED", "QU1"].iter().map(|s| s.to_string()));
+    // object macros with expression bodies (low index first so that bodies can chain)
+    for (i, m) in VALUE_MACROS.iter().enumerate() {
+        if rng.chance(2, 3) {
+            let body = value_macro_body(&mut rng, i);
+            text.push_str(&format!("#define {} {}\n", m, body));
+        }
+        // defined or not, the name is usable: an identifier that is not a macro is 0
+        names.values.push(m.to_string());
+        names.flags.push(m.to_string());
+    }
+    for which in 0..2 {
+        if rng.chance(2, 3) {
+            let d = function_macro_def(&mut rng, which);
+            text.push_str(&format!("#define {}\n", d));
+            names.functions.push((FUNCTION_MACROS[which].0.to_string(), FUNCTION_MACROS[which].1));
+        } else if rng.chance(1, 3) {
+            // the bare name of a function-like macro... that does not exist: identifier, 0
+            names.values.push(FUNCTION_MACROS[which].0.to_string());
+        }
+        names.flags.push(FUNCTION_MACROS[which].0.to_string());
+    }
+    if rng.chance(1, 3) {
+        text.push_str("#define QP\n");
+    }
+    names.flags.push("QP".into());
+
+    let depth = 1 + rng.below(5) as u32;
+    let e = gen_expr(&mut rng, depth, &names, false);
+    let mut cond = String::new();
+    render_expr(&mut rng, &e, 0, &mut cond);
+    let form = rng.below(4);
+    let kind;
+    if form == 0 {
+        // pin the exact value: `(E) == v` must be true. v comes from the reference evaluation of the same text
+        // under the definitions above, so the surviving branch shows whether rssl computed the same u64
+        let mut pp = RefPP::new(&[], "main.rssl", &defines);
+        for line in refpp::split_lines(&text) {
+            pp.feed_line(line);
+        }
+        match refpp::eval_text(&cond, &pp.macros) {
+            Ok(v) => {
+                let lit = literal_text(&mut rng, v);
+                cond = if rng.chance(1, 2) { format!("({}) == {}", cond, lit) } else { format!("{} == ({})", lit, cond) };
+                kind = "condition:pinned_value";
+            }
+            Err(_) => kind = "condition:if",
+        }
+    } else if form == 1 {
+        kind = "condition:elif";
+    } else {
+        kind = "condition:if";
+    }
+    if kind == "condition:elif" {
+        text.push_str(&format!("#if 0\nT0 ;\n#elif {}\nT1 ;\n#else\nT2 ;\n#endif\nT3 ;\n", cond));
+    } else {
+        text.push_str(&format!("#if {}\nT1 ;\n#else\nT2 ;\n#endif\nT3 ;\n", cond));
+    }
+    let kind = format!("{}:depth{}", kind, expr_depth(&e).min(9));
+    Case {
+        kind,
+        files: vec![("main.rssl".into(), text)],
+        entry: "main.rssl".into(),
+        defines,
+    }
+}
+
+// ------------------------------------------------------------------------------------------------
+// (5) directed probes
+// ------------------------------------------------------------------------------------------------
+
+fn probes() -> Vec<Case> {
+    let d = [("DEFINED", "1")];
+    let mut v = Vec::new();
+    let mut add = |name: &str, text: &str| v.push(Case::single(&format!("probe:{}", name), text.to_string(), &d));
+    // --- what C does not evaluate
+    add(
+        "elif_in_skipped_group_uses_macro_of_that_group",
+        "#ifdef UNDEFINED\n#define QF(qx) (qx > 1)\n#if QF(3)\nT1 ;\n#elif QF(2)\nT2 ;\n#endif\n#endif\nT3 ;\n",
+    );
+    add("elif_after_taken_group_uses_unknown_function_macro", "#if 1\nT1 ;\n#elif QF(2)\nT2 ;\n#endif\nT3 ;\n");
+    add("if_in_skipped_group_garbage", "#if 0\n#if ) 1 ( QF(\nT1 ;\n#endif\n#endif\nT3 ;\n");
+    add("skipped_include_of_missing_file", "#if 0\n#include \"missing_file.h\"\n#endif\nT1 ;\n#ifndef DEFINED\n#include \"missing_file.h\"\n#else\nT2 ;\n#endif\n");
+    add("skipped_unknown_directives", "#if 0\n#error no\n#frobnicate\n#pragma whatever\n#line 3\n#else\nT1 ;\n#endif\n");
+    // --- structure
+    add("unmatched_elif", "T1 ;\n#elif 1\nT2 ;\n");
+    add("unmatched_else", "T1 ;\n#else\nT2 ;\n");
+    add("unmatched_endif", "T1 ;\n#endif\nT2 ;\n");
+    add("endif_twice", "#if 1\nT1 ;\n#endif\n#endif\n");
+    add("unterminated_live", "#if 1\nT1 ;\n");
+    add("unterminated_skipped", "#if 0\nT1 ;\n");
+    add("unterminated_nested_in_skipped", "#if 0\n#if 1\n#endif\nT1 ;\n");
+    add("unterminated_after_else", "#if 0\n#else\nT1 ;\n");
+    add("unterminated_no_final_newline", "#if 1\nT1 ;");
+    add("endif_no_final_newline", "#if 0\nT1 ;\n#else\nT2 ;\n#endif");
+    add("else_no_final_newline_unterminated", "#if 0\nT1 ;\n#else");
+    // --- formatting of directive lines
+    add("spaces_and_comments", "  #  if 1 // yes\nT1 ;\n\t#\telse /* no */\nT2 ;\n # endif // done\nT3 ;\n");
+    add("comment_inside_condition", "#if 1 /* a */ && /* b */ 0\nT1 ;\n#else\nT2 ;\n#endif\n");
+    // --- values
+    add("unsigned_compare_2_63", "#if 9223372036854775808 > 1\nT1 ;\n#else\nT2 ;\n#endif\n#if 0x8000000000000000 < 0x7fffffffffffffff\nT3 ;\n#else\nT4 ;\n#endif\n");
+    add("max_u64", "#if 18446744073709551615 == 0xFFFFFFFFFFFFFFFF && !(18446744073709551615 < 18446744073709551614)\nT1 ;\n#else\nT2 ;\n#endif\n");
+    add("not_binds_tighter", "#if !0 == 1\nT1 ;\n#endif\n#if ! 1 < 1\nT2 ;\n#endif\n#if !(1 < 1)\nT3 ;\n#endif\n");
+    add("relational_before_equality", "#if 0 == 0 < 1\nT1 ;\n#else\nT2 ;\n#endif\n#if 1 < 2 == 1\nT3 ;\n#else\nT4 ;\n#endif\n");
+    add("chained_relational", "#if 3 > 2 > 1\nT1 ;\n#else\nT2 ;\n#endif\n#if 1 <= 1 <= 1\nT3 ;\n#else\nT4 ;\n#endif\n");
+    add("textual_substitution", "#define QA 1 == 2\n#if !QA\nT1 ;\n#else\nT2 ;\n#endif\n#define QB 0 || 1\n#if QB && 0\nT3 ;\n#else\nT4 ;\n#endif\n");
+    add("function_macro_name_without_arguments", "#define QG(qx) qx\n#if QG\nT1 ;\n#else\nT2 ;\n#endif\n#if QG == 0 && defined QG && defined(QG)\nT3 ;\n#endif\n");
+    add("empty_macro_is_defined", "#define QP\n#ifdef QP\nT1 ;\n#endif\n#if defined QP && defined(QP) && defined ( QP )\nT2 ;\n#endif\n#ifndef QP\nT3 ;\n#endif\n");
+    add("defined_does_not_expand_operand", "#define QA QB\n#if defined QA && !defined QB && defined(QA) && !defined(QB)\nT1 ;\n#else\nT2 ;\n#endif\n");
+    add("undef_then_ifdef", "#define QA 1\n#undef QA\n#ifdef QA\nT1 ;\n#else\nT2 ;\n#endif\n#if QA\nT3 ;\n#else\nT4 ;\n#endif\n");
+    add("deep_parentheses", &format!("#if {}1{}\nT1 ;\n#else\nT2 ;\n#endif\n", "(".repeat(40), ")".repeat(40)));
+    add("many_nots", "#if !!!!!!!0\nT1 ;\n#else\nT2 ;\n#endif\n#if !!!!!!0\nT3 ;\n#else\nT4 ;\n#endif\n");
+    add("literal_suffix_u", "#if 1u && 4294967296u > 1U\nT1 ;\n#else\nT2 ;\n#endif\n");
+    // --- integer suffixes C allows in #if (the common `#if VERSION >= 201103L` idiom)
+    add("literal_suffix_l", "#if 201103L >= 201103L\nT1 ;\n#else\nT2 ;\n#endif\n");
+    add("literal_suffix_ul", "#if 1ul\nT1 ;\n#else\nT2 ;\n#endif\n");
+    // --- effects inside unselected groups
+    add(
+        "define_undef_in_every_kind_of_dead_group",
+        "#define QA 1\n#if 0\n#undef QA\n#define QB 2\n#elif 1\nT1 QA QB ;\n#elif 1\n#undef QA\n#define QB 3\n#else\n#undef QA\n#define QB 4\n#endif\nT2 QA QB ;\n#ifdef QB\nT3 ;\n#endif\n",
+    );
+    v.push(Case {
+        kind: "probe:pragma_once_in_skipped_group".into(),
+        files: vec![
+            ("main.rssl".into(), "#include \"a.h\"\n#include \"a.h\"\n#include \"b.h\"\n#include \"b.h\"\nT9 ;\n".into()),
+            ("a.h".into(), "#if 0\n#pragma once\n#endif\nT1 ;\n".into()),
+            ("b.h".into(), "#ifdef DEFINED\n#pragma once\n#endif\nT2 ;\n".into()),
+        ],
+        entry: "main.rssl".into(),
+        defines: vec![("DEFINED".into(), "1".into())],
+    });
+    v.push(Case {
+        kind: "probe:include_in_skipped_group".into(),
+        files: vec![
+            ("main.rssl".into(), "#if 0\n#include \"a.h\"\n#elif 1\nT1 QA ;\n#else\n#include \"a.h\"\n#endif\nT2 QA ;\n#include \"a.h\"\nT3 QA ;\n".into()),
+            ("a.h".into(), "#define QA 5\nT7 ;\n".into()),
+        ],
+        entry: "main.rssl".into(),
+        defines: vec![],
+    });
+    v
+}
+
+// ------------------------------------------------------------------------------------------------
+// run / replay
+// ------------------------------------------------------------------------------------------------
+
+fn run(ctx: &Ctx) -> Report {
+    let mut total = Report::new();
+    match oracle_self_check(ctx.seed) {
+        Ok(n) => total.count_n("oracle_self_check:expressions_agreeing", n),
+        Err(e) => {
+            total.inconclusive(&e);
+            return total;
+        }
+    }
+
+    // (5) directed probes
+    let probe_cases = probes();
+    let mut r = par::run_cases(ctx, probe_cases.len() as u64, |i, report| examine(&probe_cases[i as usize], report));
+    r.counters.remove("cases_run");
+    total.merge(r);
+
+    // (1) exhaustive slice
+    let max_len = ctx.tier.pick(5, 6) as u32;
+    let n_enum = enumeration_size(max_len);
+    let mut r = par::run_cases(ctx, n_enum, |i, report| {
+        let seq = nth_sequence(i, max_len);
+        report.count(&format!("exhaustive:length{}", seq.len()));
+        report.exhaustive = Some(true);
+        examine(&sequence_case("exhaustive", &seq), report);
+    });
+    let done = r.counters.get("cases_run").copied().unwrap_or(0);
+    r.counters.remove("cases_run");
+    total.count_n("exhaustive:sequences_enumerated", done);
+    if done == n_enum {
+        total.notes.push(format!(
+            "exhaustive: all {} sequences of length 0..={} over the 12 symbol alphabet were run; lengths {}..=9 are sampled at random (12^9 = 5.2e9 is not enumerable per run)",
+            n_enum,
+            max_len,
+            max_len + 1
+        ));
+        let get = |k: &str| r.counters.get(k).copied().unwrap_or(0);
+        total.notes.push(format!(
+            "exhaustive slice by reference verdict: {} sequences have a balanced chain (exact token sequence compared), {} have broken structure (must be rejected), {} contain #elif/#else after #else (no reference value, skipped)",
+            get("expected:exhaustive:tokens"),
+            get("expected:exhaustive:reject"),
+            get("expected:exhaustive:noref")
+        ));
+    } else {
+        r.exhaustive = Some(false);
+    }
+    total.merge(r);
+
+    // (2) random sequences of length 7-9
+    let n_random = ctx.tier.pick(300_000, 3_000_000);
+    let seed = ctx.seed;
+    let mut r = par::run_cases(ctx, n_random, |i, report| {
+        let mut rng = Rng::for_case(seed, 0x5E9, i);
+        let len = 7 + rng.below(3);
+        // half of the sequences are drawn uniformly, half are biased towards balanced chains
+        let seq: Vec<u8> = if rng.chance(1, 2) {
+            (0..len).map(|_| rng.below(12) as u8).collect()
+        } else {
+            let mut open = 0;
+            (0..len)
+                .map(|k| {
+                    let remaining = len - k;
+                    let s = if open > 0 && (open >= remaining || rng.chance(1, 3)) {
+                        if open >= remaining || rng.chance(1, 2) {
+                            9
+                        } else {
+                            6 + rng.below(3) as u8
+                        }
+                    } else if rng.chance(2, 5) {
+                        rng.below(6) as u8
+                    } else {
+                        10 + rng.below(2) as u8
+                    };
+                    if s < 6 {
+                        open += 1;
+                    } else if s == 9 && open > 0 {
+                        open -= 1;
+                    }
+                    s
+                })
+                .collect()
+        };
+        report.count(&format!("random_sequence:length{}", seq.len()));
+        examine(&sequence_case("random_sequence", &seq), report);
+    });
+    r.counters.remove("cases_run");
+    total.merge(r);
+
+    // (3) structured programs, (4) conditions
+    let n_nested = ctx.tier.pick(120_000, 1_500_000);
+    let mut r = par::run_cases(ctx, n_nested, |i, report| examine(&nested_case(seed, i), report));
+    r.counters.remove("cases_run");
+    total.merge(r);
+    let n_cond = ctx.tier.pick(250_000, 3_000_000);
+    let mut r = par::run_cases(ctx, n_cond, |i, report| examine(&condition_case(seed, i), report));
+    r.counters.remove("cases_run");
+    total.merge(r);
+
+    total
+}
+
+fn replay(_ctx: &Ctx, witness: &Json) -> Report {
+    let case = Case::from_json(witness);
+    let mut report = Report::new();
+    examine(&case, &mut report);
+    report
+}
